@@ -297,6 +297,35 @@ theorem inv_update_top {reg n H0} {st : AState} (h : Inv reg n H0 st) (i : Nat) 
     · exact he
   · exact h.n3
 
+theorem inv_update_top_es {reg n H0} {st : AState} (h : Inv reg n H0 st) (i : Nat) (hi : i = delayedId ∨ n ≤ i)
+    (f : Scope → Scope) (hf : ∀ sc : Scope, (∀ kv ∈ sc.items, kv.2 = Val.none) → ∀ kv ∈ (f sc).items, kv.2 = Val.none)
+    (es : List Effect) (he : ∀ e ∈ es, EffectOK reg n e) :
+    Inv reg n H0 { st with heap := st.heap.update i f, log := st.log ++ es } := by
+  constructor
+  · intro j hj hjd
+    simp only [Heap.get_update]
+    have : ¬ (j = i ∧ i < st.heap.length) := by
+      rintro ⟨rfl, _⟩
+      rcases hi with hi | hi
+      · exact hjd hi
+      · omega
+    rw [if_neg this]; exact h.user j hj hjd
+  · intro j hj kv hkv
+    simp only [Heap.get_update] at hkv
+    split at hkv
+    · rename_i hc
+      exact hf _ (h.priv i hi) kv hkv
+    · exact h.priv j hj kv hkv
+  · exact h.top_ge
+  · intro j hj; simp only [Heap.length_update]; exact h.ids_lt j hj
+  · exact h.wf
+  · intro e' he'
+    simp only [List.mem_append] at he'
+    rcases he' with he' | he'
+    · exact h.log e' he'
+    · exact he e' he'
+  · exact h.n3
+
 theorem inv_storeTop {reg n H0} {st : AState} (h : Inv reg n H0 st) (name : Str) :
     Inv reg n H0 (storeTop st name) ∧ Restores st (storeTop st name) := by
   refine ⟨?_, ⟨rfl, rfl, by simp [storeTop, Heap.length_update]⟩⟩
@@ -413,6 +442,38 @@ theorem step_load (name : Str) (st : AState) (h : Inv reg n H0 st) :
 theorem step_store (name : Str) (st : AState) (h : Inv reg n H0 st) :
     Inv reg n H0 (step reg st (.store name)) ∧ Restores st (step reg st (.store name)) := inv_storeTop h name
 
+theorem step_condEnter (st : AState) (h : Inv reg n H0 st) :
+    Inv reg n H0 (step reg st .condEnter) ∧ Restores st (step reg st .condEnter) := ⟨h, Restores.refl st⟩
+
+theorem step_condExit (st : AState) (h : Inv reg n H0 st) :
+    Inv reg n H0 (step reg st .condExit) ∧ Restores st (step reg st .condExit) := ⟨h, Restores.refl st⟩
+
+theorem step_saveHas (name : Str) (st : AState) (h : Inv reg n H0 st) :
+    Inv reg n H0 (step reg st (.saveHas name)) ∧ Restores st (step reg st (.saveHas name)) :=
+  ⟨h.of_eq rfl rfl rfl, ⟨rfl, rfl, Nat.le_refl _⟩⟩
+
+theorem step_restoreHas (name : Str) (st : AState) (h : Inv reg n H0 st) :
+    Inv reg n H0 (step reg st (.restoreHas name)) ∧ Restores st (step reg st (.restoreHas name)) := by
+  simp only [step]
+  split
+  · exact ⟨h, Restores.refl st⟩
+  · rename_i b r hs
+    have h1 : Inv reg n H0 { st with savedHas := r } := h.of_eq rfl rfl rfl
+    split
+    · obtain ⟨a1, a2⟩ := inv_storeTop h1 name
+      exact ⟨a1, ⟨a2.stack, a2.saved, a2.heap⟩⟩
+    · exact ⟨h1, ⟨rfl, rfl, Nat.le_refl _⟩⟩
+
+theorem HT_condEnter (b : Bool) : HT reg n H0 (if b = true then [Op.condEnter] else []) := by
+  split
+  · exact HT.single step_condEnter
+  · exact HT.nil
+
+theorem HT_condExit (b : Bool) : HT reg n H0 (if b = true then [Op.condExit] else []) := by
+  split
+  · exact HT.single step_condExit
+  · exact HT.nil
+
 theorem step_enterFunc (st : AState) (h : Inv reg n H0 st) :
     Inv reg n H0 (step reg st .enterFunc) ∧ Restores st (step reg st .enterFunc) :=
   ⟨h.of_eq rfl rfl rfl, ⟨rfl, rfl, Nat.le_refl _⟩⟩
@@ -432,9 +493,12 @@ theorem step_decClass (st : AState) (h : Inv reg n H0 st) :
     Inv reg n H0 (step reg st .decClass) ∧ Restores st (step reg st .decClass) :=
   ⟨h.of_eq rfl rfl rfl, ⟨rfl, rfl, Nat.le_refl _⟩⟩
 
-theorem step_removeMissing (name : Str) (st : AState) (h : Inv reg n H0 st) :
-    Inv reg n H0 (step reg st (.removeMissing name)) ∧ Restores st (step reg st (.removeMissing name)) :=
-  ⟨h.of_eq rfl rfl rfl, ⟨rfl, rfl, Nat.le_refl _⟩⟩
+theorem step_removeMissing (name : Str) (mo : Bool) (st : AState) (h : Inv reg n H0 st) :
+    Inv reg n H0 (step reg st (.removeMissing name mo)) ∧ Restores st (step reg st (.removeMissing name mo)) := by
+  simp only [step]
+  split
+  · exact ⟨h, Restores.refl st⟩
+  · exact ⟨h.of_eq rfl rfl rfl, ⟨rfl, rfl, Nat.le_refl _⟩⟩
 
 theorem step_dunderClass (st : AState) (h : Inv reg n H0 st) :
     Inv reg n H0 (step reg st .dunderClass) ∧ Restores st (step reg st .dunderClass) := by
@@ -450,20 +514,29 @@ theorem step_storeIfNotInClass (name : Str) (st : AState) (h : Inv reg n H0 st) 
   · exact inv_storeTop h _
   · exact ⟨h, Restores.refl _⟩
 
-theorem step_classDelayed (name : Str) (st : AState) (h : Inv reg n H0 st) :
-    Inv reg n H0 (step reg st (.classDelayed name)) ∧ Restores st (step reg st (.classDelayed name)) := by
+theorem step_classDelayed (name : Str) (mo : Bool) (st : AState) (h : Inv reg n H0 st) :
+    Inv reg n H0 (step reg st (.classDelayed name mo)) ∧ Restores st (step reg st (.classDelayed name mo)) := by
   simp only [step]
   split
   · refine ⟨?_, ⟨rfl, rfl, by simp [Heap.length_update]⟩⟩
     exact inv_update_top h _ (.inl rfl) _ (fun sc hsc => by simpa [Scope.set] using assocSet_values hsc) _ (.inl rfl)
   · exact ⟨h, Restores.refl _⟩
 
-theorem step_delName (name : Str) (st : AState) (h : Inv reg n H0 st) :
-    Inv reg n H0 (step reg st (.delName name)) ∧ Restores st (step reg st (.delName name)) := by
+theorem step_delName (name : Str) (deep : Bool) (st : AState) (h : Inv reg n H0 st) :
+    Inv reg n H0 (step reg st (.delName name deep)) ∧ Restores st (step reg st (.delName name deep)) := by
   simp only [step]
   split
-  · refine ⟨?_, ⟨rfl, rfl, by simp [Heap.length_update]⟩⟩
-    exact inv_update_top h _ (.inr h.top_ge) _ (fun sc hsc => by simpa [Scope.del] using assocDel_values hsc) _ h.top_ge
+  · have h1 := inv_update_top h st.stack.top (.inr h.top_ge) (·.del name)
+      (fun sc hsc kv hkv => hsc kv (List.mem_filter.mp hkv).1) (.nsDel st.stack.top name) h.top_ge
+    split
+    · refine ⟨?_, ⟨rfl, rfl, by simp [Heap.length_update]⟩⟩
+      exact inv_update_top_es h1 st.stack.top (.inr h.top_ge) (·.delBelow name)
+        (fun sc hsc kv hkv => hsc kv (List.mem_filter.mp hkv).1) _
+        (fun e he => by
+          simp only [List.mem_map] at he
+          obtain ⟨k, _, rfl⟩ := he
+          exact h.top_ge)
+    · exact ⟨h1, ⟨rfl, rfl, by simp [Heap.length_update]⟩⟩
   · exact ⟨h, Restores.refl _⟩
 
 theorem inv_deferGlobal (name : Str) (st : AState) (h : Inv reg n H0 st) :
@@ -760,22 +833,33 @@ mutual
     | .mk nm none :: ps => by simp only [cParams]; exact HT.cons (step_store nm) (cParams_HT fx ps)
     | .mk nm (some ann) :: ps => by
       simp only [cParams]
-      exact (cExpr_HT fx ann).append (HT.cons (step_store nm) (cParams_HT fx ps))
+      split
+      · exact HT.nil.append (HT.cons (step_store nm) (cParams_HT fx ps))
+      · exact (cExpr_HT fx ann).append (HT.cons (step_store nm) (cParams_HT fx ps))
+  theorem cParamAnns_HT (fx : Fixes) : ∀ ps : List Param, HT reg n H0 (cParamAnns fx ps)
+    | [] => by simp only [cParamAnns]; exact HT.nil
+    | .mk _ none :: ps => by simp only [cParamAnns]; exact cParamAnns_HT fx ps
+    | .mk _ (some ann) :: ps => by
+      simp only [cParamAnns]
+      exact (cExpr_HT fx ann).append (cParamAnns_HT fx ps)
   theorem cArgs_HTU (fx : Fixes) : ∀ a : Args, HTU reg n H0 (cArgs fx a)
     | .mk args defaults vararg kwonly kwdefaults kwarg => by
       simp only [cArgs]
-      have key : ∀ va kw : List Op, HT reg n H0 va → HT reg n H0 kw →
-          HTU reg n H0 ([Op.upScope] ++ cExprs fx defaults ++ cOptExprs fx kwdefaults ++ [Op.downScope] ++ cParams fx args
+      have key : ∀ an va kw : List Op, HT reg n H0 an → HT reg n H0 va → HT reg n H0 kw →
+          HTU reg n H0 ([Op.upScope] ++ cExprs fx defaults ++ cOptExprs fx kwdefaults ++ an ++ [Op.downScope] ++ cParams fx args
             ++ cParams fx kwonly ++ va ++ kw) := by
-        intro va kw hva hkw
-        have : [Op.upScope] ++ cExprs fx defaults ++ cOptExprs fx kwdefaults ++ [Op.downScope] ++ cParams fx args ++ cParams fx kwonly
+        intro an va kw han hva hkw
+        have : [Op.upScope] ++ cExprs fx defaults ++ cOptExprs fx kwdefaults ++ an ++ [Op.downScope] ++ cParams fx args ++ cParams fx kwonly
                 ++ va ++ kw
-             = (Op.upScope :: ((cExprs fx defaults ++ cOptExprs fx kwdefaults) ++ [Op.downScope]))
+             = (Op.upScope :: (((cExprs fx defaults ++ cOptExprs fx kwdefaults) ++ an) ++ [Op.downScope]))
                 ++ (cParams fx args ++ cParams fx kwonly ++ va ++ kw) := by simp
         rw [this]
-        apply HTU.append (HTU.updown ((cExprs_HT fx defaults).append (cOptExprs_HT fx kwdefaults)))
+        apply HTU.append (HTU.updown (((cExprs_HT fx defaults).append (cOptExprs_HT fx kwdefaults)).append han))
         exact HT.toU ((((cParams_HT fx args).append (cParams_HT fx kwonly)).append hva).append hkw)
       apply key
+      · split
+        · exact (cParamAnns_HT fx args).append (cParamAnns_HT fx kwonly)
+        · exact HT.nil
       · cases vararg with
         | none => exact HT.nil
         | some v => exact HT.single (step_store v)
@@ -789,19 +873,24 @@ theorem cOptExpr_HT (fx : Fixes) (e : Option Expr) : HT reg n H0 (cOptExpr fx e)
   | none => exact HT.nil
   | some e => exact cExpr_HT fx e
 
-theorem cAlias_HT (b : Bool) (a : Alias) : HT reg n H0 (cAlias b a) := by
-  unfold cAlias
-  dsimp only
-  apply HT.append
-  · split
-    · exact HT.mapStores _ _
-    · exact HT.nil
-  · exact HT.single (step_store _)
+theorem inv_foldl_storeTop (keys : List Str) (st : AState) (h : Inv reg n H0 st) :
+    Inv reg n H0 (keys.foldl storeTop st) ∧ Restores st (keys.foldl storeTop st) := by
+  induction keys generalizing st with
+  | nil => exact ⟨h, Restores.refl _⟩
+  | cons k r ih =>
+    obtain ⟨h1, f1⟩ := inv_storeTop h k
+    obtain ⟨h2, f2⟩ := ih _ h1
+    exact ⟨h2, f1.trans f2⟩
 
-theorem cAliases_HT (b : Bool) (names : List Alias) : HT reg n H0 ((names.map (cAlias b)).flatten) := by
-  induction names with
-  | nil => exact HT.nil
-  | cons a r ih => simp only [List.map_cons, List.flatten_cons]; exact (cAlias_HT b a).append ih
+theorem step_importAlias (keys : List Str) (bind : Str) (idx : Nat) (plain : Bool) (st : AState) (h : Inv reg n H0 st) :
+    Inv reg n H0 (step reg st (.importAlias keys bind idx plain)) ∧
+      Restores st (step reg st (.importAlias keys bind idx plain)) := inv_foldl_storeTop keys st h
+
+theorem cAliases_HT (m : Option Str) : ∀ (idx : Nat) (names : List Alias), HT reg n H0 (cAliases m idx names)
+  | _, [] => HT.nil
+  | idx, a :: r => by
+    simp only [cAliases, cAlias]
+    exact HT.cons (step_importAlias _ _ _ _) (cAliases_HT m (idx + 1) r)
 
 theorem cWithItems_HT (fx : Fixes) : ∀ ws : List WithItem, HT reg n H0 (cWithItems fx ws)
   | [] => by simp only [cWithItems]; exact HT.nil
@@ -823,7 +912,7 @@ theorem cDelTargets_HT (fx : Fixes) : ∀ ts : List Expr, HT reg n H0 (cDelTarge
   | t :: r => by
     cases t <;> simp only [cDelTargets] <;>
       first
-        | exact HT.cons (step_delName _) (cDelTargets_HT fx r)
+        | exact HT.cons (step_delName _ _) (cDelTargets_HT fx r)
         | exact (cExpr_HT fx _).append (cDelTargets_HT fx r)
 
 theorem cAugLoad_HT (fx : Fixes) (t : Expr) : HT reg n H0 (cAugLoad fx t) := by
@@ -871,50 +960,60 @@ mutual
         | none => exact cAnnBare_HT fx t
         | some e => exact (cExpr_HT fx e).append (cTarget_HT fx t)
       · exact ((cTarget_HT fx t).append (cExpr_HT fx ann)).append (cOptExpr_HT fx v)
-    | _, .import_ names => by simp only [cStmt]; exact cAliases_HT _ names
-    | _, .importFrom _ names => by simp only [cStmt]; exact cAliases_HT _ names
+    | _, .import_ names => by simp only [cStmt]; exact cAliases_HT _ _ names
+    | _, .importFrom _ names => by simp only [cStmt]; exact cAliases_HT _ _ names
     | ln, .funcDef name a body decos returns => by
       simp only [cStmt]
-      have : [Op.pushScope true false false, Op.dunderClass] ++ cDecos fx ln decos ++ [Op.setLine ln] ++ cArgs fx a ++ cOptExpr fx returns
+      have : [Op.pushScope true false false, Op.dunderClass] ++ cDecos fx ln decos ++ [Op.setLine ln] ++ cArgs fx a ++ cRet fx returns
               ++ [Op.enterFunc, Op.pushScope false false true, Op.storeIfNotInClass name] ++ cStmts fx ln body
               ++ [Op.popScope, Op.exitFunc, Op.popScope, Op.store name]
            = (Op.pushScope true false false ::
-                (([Op.dunderClass] ++ cDecos fx ln decos ++ [Op.setLine ln] ++ cArgs fx a ++
-                   (cOptExpr fx returns ++ [Op.enterFunc] ++
+                (([Op.dunderClass] ++ cDecos fx ln decos ++ [Op.setLine ln] ++ cArgs fx a ++ cRet fx returns ++
+                   ([Op.enterFunc] ++
                      (Op.pushScope false false true :: (([Op.storeIfNotInClass name] ++ cStmts fx ln body) ++ [Op.popScope]))
                      ++ [Op.exitFunc])) ++ [Op.popScope])) ++ [Op.store name] := by simp
       rw [this]
       refine HT.append (HTU.bracket _ ?_) (HT.single (step_store name))
-      refine HTU.append (HTU.append (HT.toU ?_) (cArgs_HTU fx a)) (HT.toU ?_)
+      refine HTU.append (HTU.append (HTU.append (HT.toU ?_) (cArgs_HTU fx a)) ?_) (HT.toU ?_)
       · exact ((HT.single step_dunderClass).append (cDecos_HT fx ln decos)).append (HT.single (step_setLine ln))
-      · refine (((cOptExpr_HT fx returns).append (HT.single step_enterFunc)).append ?_).append (HT.single step_exitFunc)
+      · cases returns with
+        | none => exact HT.toU HT.nil
+        | some r =>
+          simp only [cRet]
+          split
+          · exact HTU.updown (cExpr_HT fx r)
+          · exact HT.toU (cExpr_HT fx r)
+      · refine ((HT.single step_enterFunc).append ?_).append (HT.single step_exitFunc)
         exact HT.bracket _ _ _ ((HT.single (step_storeIfNotInClass name)).append (cStmts_HT fx ln body))
     | ln, .classDef name bases body decos => by
       simp only [cStmt]
-      have : cExprs fx bases ++ cDecos fx ln decos ++ [Op.classDelayed name, Op.pushScope false true false, Op.incClass, Op.store name]
-              ++ cStmts fx ln body ++ [Op.decClass, Op.popScope, Op.removeMissing name, Op.store name]
-           = (cExprs fx bases ++ cDecos fx ln decos ++ [Op.classDelayed name]) ++
+      have : cExprs fx bases ++ cDecos fx ln decos ++ [Op.classDelayed name fx.classModuleOnly, Op.pushScope false true false, Op.incClass, Op.store name]
+              ++ cStmts fx ln body ++ [Op.decClass, Op.popScope, Op.removeMissing name fx.classModuleOnly, Op.store name]
+           = (cExprs fx bases ++ cDecos fx ln decos ++ [Op.classDelayed name fx.classModuleOnly]) ++
               (Op.pushScope false true false :: (([Op.incClass, Op.store name] ++ cStmts fx ln body ++ [Op.decClass]) ++ [Op.popScope]))
-              ++ [Op.removeMissing name, Op.store name] := by simp
+              ++ [Op.removeMissing name fx.classModuleOnly, Op.store name] := by simp
       rw [this]
-      refine ((((cExprs_HT fx bases).append (cDecos_HT fx ln decos)).append (HT.single (step_classDelayed name))).append ?_).append
-        (HT.cons (step_removeMissing name) (HT.single (step_store name)))
+      refine ((((cExprs_HT fx bases).append (cDecos_HT fx ln decos)).append (HT.single (step_classDelayed name _))).append ?_).append
+        (HT.cons (step_removeMissing name _) (HT.single (step_store name)))
       apply HT.bracket
       exact ((HT.cons step_incClass (HT.single (step_store name))).append (cStmts_HT fx ln body)).append (HT.single step_decClass)
     | ln, .for_ t it body orelse => by
       simp only [cStmt]
-      refine (HT.append ?_ (cStmts_HT fx ln body)).append (cStmts_HT fx ln orelse)
+      refine ((HT_condEnter _).append ((HT.append ?_ (cStmts_HT fx ln body)).append (cStmts_HT fx ln orelse))).append (HT_condExit _)
       split
       · exact (cExpr_HT fx it).append (cTarget_HT fx t)
       · exact (cTarget_HT fx t).append (cExpr_HT fx it)
     | ln, .while_ t body orelse => by
-      simp only [cStmt]; exact ((cExpr_HT fx t).append (cStmts_HT fx ln body)).append (cStmts_HT fx ln orelse)
+      simp only [cStmt]
+      exact ((HT_condEnter _).append (((cExpr_HT fx t).append (cStmts_HT fx ln body)).append (cStmts_HT fx ln orelse))).append (HT_condExit _)
     | ln, .if_ t body orelse => by
-      simp only [cStmt]; exact ((cExpr_HT fx t).append (cStmts_HT fx ln body)).append (cStmts_HT fx ln orelse)
+      simp only [cStmt]
+      exact ((HT_condEnter _).append (((cExpr_HT fx t).append (cStmts_HT fx ln body)).append (cStmts_HT fx ln orelse))).append (HT_condExit _)
     | ln, .with_ items body => by simp only [cStmt]; exact (cWithItems_HT fx items).append (cStmts_HT fx ln body)
     | ln, .try_ body hs orelse final => by
       simp only [cStmt]
-      exact (((cStmts_HT fx ln body).append (cHandlers_HT fx ln hs)).append (cStmts_HT fx ln orelse)).append (cStmts_HT fx ln final)
+      exact ((HT_condEnter _).append ((((cStmts_HT fx ln body).append (cHandlers_HT fx ln hs)).append (cStmts_HT fx ln orelse)).append
+        (cStmts_HT fx ln final))).append (HT_condExit _)
     | _, .return_ e => by simp only [cStmt]; exact cOptExpr_HT fx e
     | _, .pass => by simp only [cStmt]; exact HT.nil
     | _, .raise_ e => by simp only [cStmt]; exact cExpr_HT fx e
@@ -933,13 +1032,21 @@ mutual
       refine (((cOptExpr_HT fx type).append ?_).append (cStmts_HT fx l body)).append ?_
       · cases name with
         | none => exact HT.nil
-        | some nm => exact HT.single (step_store nm)
+        | some nm =>
+          simp only []
+          refine HT.append ?_ (HT.single (step_store nm))
+          split
+          · exact HT.single (step_saveHas nm)
+          · exact HT.nil
       · cases name with
         | none => exact HT.nil
         | some nm =>
           simp only []
           split
-          · exact HT.single (step_delName nm)
+          · refine HT.cons (step_delName nm false) ?_
+            split
+            · exact HT.single (step_restoreHas nm)
+            · exact HT.nil
           · exact HT.nil
 end
 
